@@ -35,6 +35,10 @@ FAULTS = ('truncated-record', 'oversized-length', 'undecodable-mti', 'unknown-bi
           'datetime-with-blank-or-sign')
 
 
+# faults that leave the framing of the file intact (a reader can go on behind them) and need no other configuration
+MESSAGE_FAULTS = ('undecodable-mti', 'unknown-bit', 'bad-field-length', 'bad-typed-value', 'bad-pds', 'length-negative', 'short-message', 'bare-mti')
+
+
 def owner(clause):
     return True
 
@@ -103,7 +107,7 @@ def inject(rec, kind, enc, r):
     return bytes(x)
 
 
-def build_file(n, k, kind, enc, blocked, bc, seed):
+def build_file(n, k, kind, enc, blocked, bc, seed, k2=0):
     r = drv.rng(seed, 'c10', n, k, kind, enc, blocked)
     msgs = [base_message(i + 1, enc) for i in range(n)]
     if kind == 'bad-decimal':
@@ -128,6 +132,8 @@ def build_file(n, k, kind, enc, blocked, bc, seed):
             data = data[:keep]
         return data
     recs[k - 1] = inject(recs[k - 1], kind, enc, r)
+    if k2:
+        recs[k2 - 1] = inject(recs[k2 - 1], MESSAGE_FAULTS[(MESSAGE_FAULTS.index(kind) + k2) % len(MESSAGE_FAULTS)], enc, r)
     _, data = drv.vbs_write_events(recs, blocked)
     return data
 
@@ -135,17 +141,19 @@ def build_file(n, k, kind, enc, blocked, bc, seed):
 def _drive(args):
     seed, cases = args
     out = []
-    for (tid, n, k, kind, enc, blocked) in cases:
+    for case in cases:
+        tid, n, k, kind, enc, blocked = case[:6]
+        k2 = case[6] if len(case) > 6 else 0
         if tid % 8 == 5:
             drv.hazard(drv.rng(seed, 'hazard', tid))
         bc = dec_config() if kind == 'bad-decimal' else PKG['bit_config']
-        data = build_file(n, k, kind, enc, blocked, bc, seed)
+        data = build_file(n, k, kind, enc, blocked, bc, seed, k2)
         realfile = None
         if tid % 5 == 3:
             import os
             realfile = os.path.join(core.VERIF, '.work', 'c10-%d-%d.ipm' % (os.getpid(), tid))
             open(realfile, 'wb').write(data)
-        events = [ipmc.iev(1, 'given', b=data)] + ipmc.read_all_events(1, data, enc, bc, blocked, style=tid % 4, path=realfile)
+        events = [ipmc.iev(1, 'given', b=data)] + ipmc.read_all_events(1, data, enc, bc, blocked, style=4 if k2 else tid % 4, path=realfile)
         if realfile:
             os.unlink(realfile)
         last = events[-1]
@@ -164,6 +172,7 @@ def _drive(args):
         out.append({'tid': tid, 'loc': True, 'strict': True, 'cols': [], 'insts': [{'blk': blocked}], 'events': events,
                     '_desc': '%d records, fault %s in record %d, %s, %s, reader consumed by %s' % (
                         n, kind, k, enc, 'blocked' if blocked else 'vbs',
+                        'next() calls that go on after each library error (second fault in record %d)' % k2 if k2 else
                         ('next() calls', 'next() then a for loop', 'a for loop left with break and resumed', 'one for loop')[tid % 4]),
                     '_detail': detail, '_enc': enc, '_cfg': 'dec' if kind == 'bad-decimal' else 'pkg'})
     return out
@@ -187,6 +196,14 @@ def run(rep, wd, tier, seed):
             n = r.randrange(5, 41)
             cases.append((tid, n, r.randrange(1, n + 1), r.choice(FAULTS), r.choice(('latin_1', 'cp500')), bool(r.randrange(2))))
             tid += 1
+    # the caller catches the error for a bad message and keeps reading: two (three) faults per file
+    for enc in ('latin_1', 'cp500'):
+        for blocked in (False, True):
+            for n, k, k2 in ((3, 1, 2), (4, 2, 4), (6, 2, 5), (6, 1, 6), (5, 3, 4), (7, 2, 3)):
+                for kind in MESSAGE_FAULTS:
+                    if (tid + n) % 2 == 0 or tier == 'thorough':
+                        cases.append((tid, n, k, kind, enc, blocked, k2))
+                    tid += 1
     parts = core.split(cases, core.NCPU)
     outs = isocheck._pool(_drive, [(seed, p) for p in parts])
     # four threads at once, each reading its own faulty file
